@@ -155,7 +155,55 @@ class Prov:
                     elif it[0] == "const" and isinstance(it[1], int) and not isinstance(it[1], bool):
                         names[i] = "[%d]" % it[1]
         base = self.local_tree(l, depth + 1)
-        return self._project(base, names)
+        t = self._project(base, names)
+        if self.body.is_closure and t[0] == "path" and t[1] == ("env",) and t[2]:
+            t = self._lifted_capture(t)
+        return t
+
+    def _lifted_capture(self, t):
+        """A closure that captures a local which the parent merely LIFTED out of another variable
+        (`let sender = announce.header.source_port_identity;` ... `|state| .. sender ..`): spell it as the projection of
+        that variable, `env._ref__announce.header.source_port_identity`, which is what the closure reads when the
+        sub-expression is not lifted. Only pure field projections of a named parent variable qualify."""
+        t_orig = t
+        lead = 0
+        while lead < len(t[2]) and t[2][lead] == "*":
+            lead += 1
+        if lead >= len(t[2]):
+            return t_orig
+        t = ("path", t[1], t[2][lead:])
+        cap = t[2][0]
+        name = cap[len("_ref__"):] if cap.startswith("_ref__") else cap
+        body = self.body
+        prog = getattr(getattr(body, "unit", None), "prog", None)
+        if prog is None or not body.parent or getattr(self, "_no_lift", False):
+            return t_orig
+        cache = prog.__dict__.setdefault("_lift_cache", {})
+        ck = (body.unit.name, body.parent, name)
+        if ck not in cache:
+            res = None
+            par = next((b for b in prog.bodies.values() if b.unit is body.unit and b.j["key"] == body.parent), None)
+            if par is not None:
+                idx = [i for i, l in enumerate(par.locals) if l.get("name") == name]
+                if len(idx) == 1 and idx[0] > par.argc:
+                    d = defs(par)
+                    ds = d.whole.get(idx[0], [])
+                    if len(ds) == 1 and ds[0][2][0] == "assign" and ds[0][2][1]["k"] == "use" and \
+                            idx[0] not in d.partial and idx[0] not in d.mut_borrowed:
+                        src = mir.op_place(ds[0][2][1]["op"])
+                        if src is not None and par.local_name(src["l"]) and par.local_name(src["l"]) != name:
+                            flds = _proj_names(src["proj"])
+                            if flds and all(f == "*" or (not f.startswith("[") and not f.startswith("as ")) for f in flds):
+                                res = (par.local_name(src["l"]), tuple(flds))
+            cache[ck] = res
+        res = cache[ck]
+        if res is None:
+            return t_orig
+        y, flds = res
+        rest = t[2][1:]
+        if cap.startswith("_ref__") and rest and rest[0] == "*":
+            rest = rest[1:]
+        return ("path", ("env",), ("_ref__" + y, "*") + flds + tuple(rest))
 
     def _project(self, base, names):
         t = base
@@ -184,6 +232,15 @@ class Prov:
                     return sub
             return ("field", t, n)
         if k == "phi":
+            if n.startswith("as "):
+                # a downcast selects the alternatives that were built as that variant: `(x as Some).0` of
+                # phi(None | Some{0: v}) is v (the other alternatives cannot reach a use of the payload)
+                want = n[3:]
+                alts = [x for x in t[1] if not (strip(x)[0] == "agg" and strip(x)[2] and strip(x)[2] != want)]
+                if alts and len(alts) < len(t[1]):
+                    if len(alts) == 1:
+                        return self._project1(alts[0], n)
+                    return ("phi", tuple(self._project1(x, n) for x in alts))
             return ("phi", tuple(self._project1(x, n) for x in t[1]))
         return ("field", t, n)
 
